@@ -1,0 +1,23 @@
+//! Verification hooks (feature `verif-hooks`, off by default, add-only).
+//!
+//! Public wrappers around the selection layer's private functions so an
+//! external harness can drive each stage on its own. No production code path
+//! calls anything in here.
+
+use crate::config_snapshot::ConfigSnapshot;
+use crate::connection::SrtlaConnection;
+
+/// Run only the stall-gate pass of `select_connection_idx`.
+pub fn apply_stall_gate(conns: &mut [SrtlaConnection], now_ms: u64, config: &ConfigSnapshot) {
+    super::apply_stall_gate(conns, now_ms, config)
+}
+
+/// Run only the classic selector (no stall-gate pass).
+pub fn classic_select(conns: &[SrtlaConnection], now_ms: u64) -> Option<usize> {
+    super::classic::select_connection(conns, now_ms)
+}
+
+/// The CC soft-cap multiplier folded into the enhanced score.
+pub fn cc_soft_cap_multiplier(conn: &SrtlaConnection) -> f64 {
+    super::enhanced::verif_cc_soft_cap_multiplier(conn)
+}
